@@ -677,20 +677,69 @@ Definition ex_history : list op :=
     DropHandle 0 ].
 Example ex_wf : forall c, wf_collector (conf_of_list ex_filters c).
 Proof. apply conf_of_list_wf. reflexivity. Qed.
-Example ex_observations :
-  map fst (run false (Some TRACE) (conf_of_list ex_filters) init ex_history) =
+Example ex_observations : forall fx,
+  map fst (run fx (Some TRACE) (conf_of_list ex_filters) init ex_history) =
   [ ONew 0; OUnit; OEmit None None;
     ONew 1; OUnit; OEmit (Some (DCol 1)) (Some 1);
     OUnit; OEmit (Some (DCol 1)) None;
     OUnit ].
-Proof. vm_compute. reflexivity. Qed.
+Proof. intros []; vm_compute; reflexivity. Qed.
 
 (** The side condition is needed: with a hint that is NOT an upper bound the global maximum level suppresses
     a delivery the collector's own filter accepts. *)
 Definition lying : list fspec := [ mk_fspec 5 [0] 0 3 ].   (* accepts TRACE, hints WARN *)
-Example lying_hint_breaks_it :
+Example lying_hint_breaks_it : forall fx,
   hint_sound (mk_fspec 5 [0] 0 3) = false /\
-  let s := final false (Some TRACE) (conf_of_list lying) init [New; Open 0 (DCol 0)] in
-  snd (step false (Some TRACE) (conf_of_list lying) s (Emit 0 ex_cs)) = OEmit None None /\
+  let s := final fx (Some TRACE) (conf_of_list lying) init [New; Open 0 (DCol 0)] in
+  snd (step fx (Some TRACE) (conf_of_list lying) s (Emit 0 ex_cs)) = OEmit None None /\
   own_verdict (Some TRACE) (conf_of_list lying) s 0 ex_cs = Some 0.
-Proof. split; [reflexivity|]. split; vm_compute; reflexivity. Qed.
+Proof. intros []; (split; [reflexivity|]); split; vm_compute; reflexivity. Qed.
+
+(** * "The process-wide shortcuts may only skip work": the three of them, one by one, after ANY history.
+    A cached `never` means the emitting thread's current collector (whoever it is) rejects the callsite; a cached
+    `always` means it accepts it; a level above MAX_LEVEL means it rejects it.  (The compile-time cap is the
+    documented exception and is part of [own_verdict].) *)
+Theorem shortcuts_only_skip fx static_max conf :
+  (forall c, wf_collector (conf c)) ->
+  forall h cs t,
+  let s := final fx static_max conf init h in
+  (cache s cs = Some never -> own_verdict static_max conf s t cs = None) /\
+  (cache s cs = Some always -> forall c, current s t = DCol c -> accepts conf s c cs = true) /\
+  (lvl_le (cs_lvl cs) (max_level s) = false -> own_verdict static_max conf s t cs = None).
+Proof.
+  intros WF h cs t s.
+  assert (I : Inv conf s) by (unfold s; apply final_inv; [exact WF | apply Inv_init]).
+  split; [|split].
+  - intro Hc. unfold own_verdict. destruct (current s t) as [|c] eqn:Ec; [reflexivity|].
+    assert (Hr : c_reg (conf c) cs = never).
+    { apply (inv_never conf s I cs c Hc). eapply current_live; eassumption. }
+    unfold accepts. rewrite Hr, andb_false_r. reflexivity.
+  - intros Hc c Ec.
+    assert (Hr : c_reg (conf c) cs = always).
+    { apply (inv_always conf s I cs c Hc). eapply current_live; eassumption. }
+    unfold accepts. rewrite Hr. reflexivity.
+  - intro Hl. eapply level_disabled_rejects; [exact WF | exact I |].
+    unfold level_enabled. rewrite Hl. apply andb_false_r.
+Qed.
+
+(** With the no-op dispatcher current (Dispatch::none() installed as a scope, or no default at all) nothing is delivered. *)
+Theorem none_dispatch_discards static_max conf s t cs :
+  current s t = DNone -> own_verdict static_max conf s t cs = None.
+Proof. unfold own_verdict. intros ->. reflexivity. Qed.
+
+(** The verdict does not look at the callsite's kind: span!, event! and enabled! callsites with the same level and
+    target get the same answer from the same collector whenever the collector's own filter does not distinguish kinds
+    (the structured filters of the correspondence never do). *)
+Theorem structured_verdict_ignores_kind static_max l s t id1 id2 lvl tgt k1 k2 :
+  own_verdict static_max (conf_of_list l) s t {| cs_id := id1; cs_lvl := lvl; cs_tgt := tgt; cs_kind := k1 |} =
+  own_verdict static_max (conf_of_list l) s t {| cs_id := id2; cs_lvl := lvl; cs_tgt := tgt; cs_kind := k2 |}.
+Proof.
+  unfold own_verdict. destruct (current s t) as [|c]; [reflexivity|]. simpl.
+  assert (G : forall l c, c_reg (conf_of_list l c) {| cs_id := id1; cs_lvl := lvl; cs_tgt := tgt; cs_kind := k1 |} =
+                          c_reg (conf_of_list l c) {| cs_id := id2; cs_lvl := lvl; cs_tgt := tgt; cs_kind := k2 |} /\
+                          forall fl, c_en (conf_of_list l c) fl {| cs_id := id1; cs_lvl := lvl; cs_tgt := tgt; cs_kind := k1 |} =
+                                     c_en (conf_of_list l c) fl {| cs_id := id2; cs_lvl := lvl; cs_tgt := tgt; cs_kind := k2 |}).
+  { clear. induction l as [|f l IH]; intro c; simpl; [split; reflexivity|].
+    destruct (c =? 0); [|apply IH]. unfold mk_collector, static_ok. simpl. split; reflexivity. }
+  unfold accepts. destruct (G l c) as [G1 G2]. rewrite G1, G2. reflexivity.
+Qed.
